@@ -171,22 +171,28 @@ func observeFeature(f *geojson.Feature, pr *problems) obsFeature {
 	}
 	if r, ok := f.Properties["relations"]; ok {
 		o.HasRels = true
-		rv := reflect.ValueOf(r)
-		if rv.Kind() != reflect.Slice {
-			pr.add("properties.relations is not a slice")
+		// observed the way a user sees the summaries: through their JSON form (keys id, role,
+		// tags); the Go type is unexported, so its field names are not observable
+		raw, err := json.Marshal(r)
+		if err != nil {
+			pr.add("properties.relations does not marshal: %v", err)
 		} else {
-			for i := 0; i < rv.Len(); i++ {
-				e := rv.Index(i)
-				for e.Kind() == reflect.Ptr || e.Kind() == reflect.Interface {
-					e = e.Elem()
-				}
-				if e.Kind() != reflect.Struct || !e.FieldByName("ID").IsValid() || !e.FieldByName("Role").IsValid() || !e.FieldByName("Tags").IsValid() {
-					pr.add("relation summary of unexpected shape")
+			var sums []struct {
+				ID   *int64            `json:"id"`
+				Role *string           `json:"role"`
+				Tags map[string]string `json:"tags"`
+			}
+			dec := json.NewDecoder(strings.NewReader(string(raw)))
+			dec.DisallowUnknownFields()
+			if err := dec.Decode(&sums); err != nil {
+				pr.add("properties.relations is not a list of {id, role, tags}: %v", err)
+			}
+			for _, su := range sums {
+				if su.ID == nil || su.Role == nil {
+					pr.add("relation summary without id or role")
 					continue
 				}
-				id, _ := toInt(e.FieldByName("ID").Interface())
-				m, _ := tagMap(e.FieldByName("Tags").Interface())
-				o.Rels = append(o.Rels, obsSummary{ID: id, Role: e.FieldByName("Role").String(), Tags: sortedTags(m)})
+				o.Rels = append(o.Rels, obsSummary{ID: *su.ID, Role: *su.Role, Tags: sortedTags(su.Tags)})
 			}
 		}
 	}
@@ -225,6 +231,12 @@ func observeFeature(f *geojson.Feature, pr *problems) obsFeature {
 				pr.add("unexpected meta key %q", k)
 			}
 		}
+	}
+	if f.Type != "Feature" {
+		pr.add("feature type %q", f.Type)
+	}
+	if f.BBox != nil {
+		pr.add("feature has a bbox")
 	}
 	for k := range f.Properties {
 		switch k {
@@ -281,6 +293,12 @@ func observe(o *osm.OSM, bits int, pr *problems) (fs []obsFeature) {
 	if err != nil {
 		pr.add("Convert returned an error (optbits %d): %v", bits, err)
 		return nil
+	}
+	if fc.Type != "FeatureCollection" || fc.BBox != nil {
+		pr.add("feature collection envelope changed: type %q bbox %v", fc.Type, fc.BBox)
+	}
+	if _, err := json.Marshal(fc); err != nil {
+		pr.add("feature collection does not marshal (optbits %d): %v", bits, err)
 	}
 	for _, f := range fc.Features {
 		fs = append(fs, observeFeature(f, pr))
@@ -815,10 +833,20 @@ func (g *gen) wayOf(ids []osm.NodeID, tags osm.Tags, annotate bool) *osm.Way {
 	for _, id := range ids {
 		wn := osm.WayNode{ID: id}
 		if annotate {
+			found := false
 			for _, n := range g.o.Nodes {
 				if n.ID == id {
 					wn.Lon, wn.Lat = n.Lon, n.Lat
+					found = true
+					if g.rng.Intn(4) == 0 {
+						// annotated with an older position of the node: the annotation wins
+						wn.Lon, wn.Lat = n.Lon+1, n.Lat-1
+					}
 				}
+			}
+			if !found && g.rng.Intn(2) == 0 {
+				// a node missing from the data but annotated on the way: resolvable
+				wn.Lon, wn.Lat = float64(200+g.rng.Intn(9)), float64(60+g.rng.Intn(9))
 			}
 		}
 		w.Nodes = append(w.Nodes, wn)
@@ -989,10 +1017,30 @@ func (g *gen) multipolygon(ox, oy int) {
 			members = append(members, g.wayMembers(iws, ios, "inner")...)
 		}
 	}
-	if rng.Intn(5) == 0 { // an inner outside every outer
-		in, iccw := g.rect(ox+30, oy+2, ox+33, oy+5)
+	strays := 0
+	switch rng.Intn(10) {
+	case 0, 1:
+		strays = 1 // an inner outside every outer
+	case 2:
+		strays = 2 // two of them: the second reuses the polygon with the empty outer
+	}
+	for k := 0; k < strays; k++ {
+		in, iccw := g.rect(ox+30, oy+2+6*k, ox+33, oy+5+6*k)
 		iws, ios := g.ringWays(in, iccw, nil, false)
 		members = append(members, g.wayMembers(iws, ios, "inner")...)
+	}
+	if strays > 0 && rng.Intn(3) == 0 {
+		// no outer member at all: only IncludeInvalidPolygons reports the relation
+		var ms osm.Members
+		for _, m := range members {
+			if m.Role != "outer" {
+				ms = append(ms, m)
+			}
+		}
+		members = ms
+	}
+	if rng.Intn(8) == 0 {
+		members = append(members, osm.Member{Type: osm.TypeNode, Ref: int64(1 + rng.Intn(int(g.nextN))), Role: "outer"})
 	}
 	if rng.Intn(4) == 0 {
 		members = append(members, osm.Member{Type: osm.TypeNode, Ref: int64(1 + rng.Intn(int(g.nextN))), Role: "label"})
@@ -1085,6 +1133,28 @@ func (g *gen) route(ox, oy int) {
 	}
 	if rng.Intn(8) == 0 {
 		members = append(members, osm.Member{Type: osm.TypeRelation, Ref: int64(1 + rng.Intn(3)), Role: "sub"})
+	}
+	if rng.Intn(6) == 0 {
+		// a member way with a single node, or with no resolvable node at all
+		var part []osm.NodeID
+		if rng.Intn(2) == 0 {
+			part = []osm.NodeID{ids[0]}
+		} else {
+			part = []osm.NodeID{g.missing, g.missing + 1}
+			g.missing += 2
+		}
+		w := g.wayOf(part, randTags(rng), false)
+		members = append(members, osm.Member{Type: osm.TypeWay, Ref: int64(w.ID), Role: ""})
+	}
+	if rng.Intn(12) == 1 {
+		// the only member way has a single resolvable node: a feature with an empty geometry
+		w := g.wayOf([]osm.NodeID{ids[0], g.missing}, randTags(rng), false)
+		g.missing++
+		members = osm.Members{{Type: osm.TypeWay, Ref: int64(w.ID), Role: ""}}
+	}
+	if rng.Intn(12) == 0 {
+		// none of the member ways is in the data: no feature
+		members = osm.Members{{Type: osm.TypeWay, Ref: 860, Role: ""}, {Type: osm.TypeNode, Ref: int64(ids[0]), Role: "stop"}}
 	}
 	g.relation(relTags(rng, "route"), members)
 }
@@ -1285,6 +1355,12 @@ func corpus() []*osm.OSM {
 	o.Nodes[1].Tags = tagsOf("source", "x", "amenity", "cafe")
 	o.Nodes[4].Version = 0
 	out = append(out, o)
+	// a route whose only member way has one resolvable node: feature with an empty MultiLineString
+	out = append(out, &osm.OSM{
+		Nodes: nodesAt([3]int{1, 1, 1}),
+		Ways:  osm.Ways{wayIDs(1, nil, 1, 902)},
+		Relations: osm.Relations{{ID: 1, Tags: tagsOf("type", "route"), Members: osm.Members{{Type: osm.TypeWay, Ref: 1}}}},
+	})
 	// an area way closed on a node that is missing from the data: the ring must still be closed
 	out = append(out, &osm.OSM{
 		Nodes: nodesAt([3]int{1, 1, 1}, [3]int{2, 5, 1}, [3]int{3, 5, 5}, [3]int{4, 1, 5}),
@@ -1318,7 +1394,16 @@ func canaries() []*wire.Case {
 	}
 	for _, m := range muts {
 		s := runScene(rich(), bits)
-		m(s)
+		func() {
+			// when the implementation no longer produces the structure a mutator expects
+			// (the real cases then fail anyway) fall back to a corruption that always applies
+			defer func() {
+				if recover() != nil {
+					s.unchanged = false
+				}
+			}()
+			m(s)
+		}()
 		c := s.encode("")
 		c.Canary = 1
 		c.OracleFail = ""
